@@ -139,6 +139,8 @@ def check(prop, tier, seed):
             listed.setdefault(k['id'], (k, []))[1].append(v)
     reasons = list(dict.fromkeys(problems))
     reasons += mod.floors(m, tier)
+    if m['counters'].get('case_watchdog_fired', 0):
+        reasons.append('%d cases exceeded the per-case watchdog (a watchdog is never a verdict)' % m['counters']['case_watchdog_fired'])
     he = m['counters'].get('harness_errors', 0)
     if he > max(3, 0.01 * m['counters'].get('cases', 0)):
         reasons.append('%d harness errors (monitors could not cope with the observed behaviour); first: %s' % (
